@@ -161,6 +161,14 @@ def o4(tier):
     return r
 
 
+def o5(tier):
+    """a storage write that is refused must itself be effect-free, otherwise the event refused because of it leaves something behind"""
+    from props import memobs
+    r = memobs.save_group_refusal(tier, 'O5', 'O5')
+    r.title = 'memory backend (shared with C08-O6): a save_group that fails changes nothing, so an event / invitation refused because its group record is refused leaves no record behind -- ' + r.title[:160]
+    return r
+
+
 def run(tier, seed, only=None):
-    obs = [('O1', o1), ('O1b', o1b), ('O2', o2), ('O3', o3), ('O4', o4)]
+    obs = [('O1', o1), ('O1b', o1b), ('O2', o2), ('O3', o3), ('O4', o4), ('O5', o5)]
     return [f(tier) for k, f in obs if not only or k in only]
